@@ -100,3 +100,32 @@ package notation
 //@ loop 1 invariant verifyCount(verifier) <= verifyBase(verifier) + numOfSignatureProcessed && verifyCount(verifier) >= verifyBase(verifier)
 //@ loop 1 invariant fetchFails(repo) == fetchFailBase(repo)
 //@ loop 1 invariant len(verificationFailedErrorArray) >= 1 && verificationFailedErrorArray[0] != nil
+
+// ---- C07: blob descriptors and what verification reports back ----
+
+//@ func getDescriptorFunc$1
+//@ props C07
+//@ requires reader != nil
+//@ ensures[C07.blob-descriptor] result1 == nil ==> copyErr(reader) == nil && result.MediaType == contentMediaType && result.Digest == digestOf(hashAlgo, readAll(reader)) && result.Size == len(readAll(reader))
+//@ ensures[C07.blob-metadata] result1 == nil ==> forall(k, string, has(result.Annotations, k) == has(userMetadata, k)) && forallkeys(k, userMetadata, result.Annotations[k] == userMetadata[k])
+
+//@ func SignBlob
+//@ props C07
+//@ modifies any
+//@ at call getDescriptorFunc: assert[C07.sign-blob-args] arg1 == blobReader && arg2 == signBlobOpts.ContentMediaType && arg3 == signBlobOpts.UserMetadata && arg2 != ""
+//@ at call (BlobSigner).SignBlob: assert[C07.sign-blob-args] arg1 == getDescFunc && arg2 == signBlobOpts.SignerSignOptions
+
+//@ func VerifyBlob
+//@ props C07 C12
+//@ modifies any
+//@ at call getDescriptorFunc: assert[C07.verify-blob-args] arg1 == blobReader && arg2 == verifyBlobOpts.ContentMediaType && arg3 == verifyBlobOpts.UserMetadata
+//@ at call (BlobVerifier).VerifyBlob: assert[C07.verify-blob-args] arg1 == getDescFunc && arg2 == signature && arg3 == verifyBlobOpts.BlobVerifierVerifyOptions
+//@ ensures[C07.returns-verified-descriptor] result2 == nil && result1.EnvelopeContent != nil ==> decPayloadErr(string(result1.EnvelopeContent.Payload.Content)) == nil && result == decPayload(string(result1.EnvelopeContent.Payload.Content)).TargetArtifact
+//@ ensures[C12.outcome] result2 == nil ==> result1 != nil
+
+//@ func (*VerificationOutcome).UserMetadata
+//@ props C07 C12
+//@ requires outcome != nil
+//@ ensures[C07.metadata-readback] result1 == nil ==> outcome.EnvelopeContent != nil && decPayloadErr(string(outcome.EnvelopeContent.Payload.Content)) == nil && result != nil
+//@ ensures[C07.metadata-readback] result1 == nil && decPayload(string(outcome.EnvelopeContent.Payload.Content)).TargetArtifact.Annotations != nil ==> result == decPayload(string(outcome.EnvelopeContent.Payload.Content)).TargetArtifact.Annotations
+//@ ensures[C07.metadata-readback] result1 == nil && decPayload(string(outcome.EnvelopeContent.Payload.Content)).TargetArtifact.Annotations == nil ==> fresh(result) && len(result) == 0
